@@ -518,8 +518,9 @@ CMP_NAME = {
 import datetime as _dt  # noqa: E402
 import re as _re_mod  # noqa: E402
 
-_DATA_TYPES = (_dt.datetime, _dt.date, _dt.timedelta, _dt.time, _re_mod.Match)
-_DATA_METHODS = {"total_seconds", "group", "groups", "date", "time", "isoweekday", "weekday", "replace", "timestamp", "start", "end", "span", "astimezone"}
+_DATA_TYPES = (_dt.datetime, _dt.date, _dt.timedelta, _dt.time, _re_mod.Match, _re_mod.Pattern)
+_DATA_METHODS = {"total_seconds", "group", "groups", "date", "time", "isoweekday", "weekday", "replace", "timestamp", "start", "end", "span", "astimezone",
+                 "match", "fullmatch", "search"}
 
 NOT_NONE_OPS = {"str", "repr", "len", "new", "fstr", "format", "int", "float", "bool", "tuple", "list", "set", "dict", "sorted", "frozenset", "not", "slice"}
 
@@ -2132,8 +2133,8 @@ class Interp:
                 if v is not None:
                     return [(cfg, v)]
                 return rebind(base.set(args[0], args[1]), args[1])
-        if isinstance(base, Const) and isinstance(base.v, bytes) and meth == "join" and len(args) == 1 and isinstance(args[0], ListV) \
-                and all(isinstance(x, Const) and isinstance(x.v, bytes) for x in args[0].items):
+        if isinstance(base, Const) and isinstance(base.v, (bytes, str)) and meth == "join" and len(args) == 1 and isinstance(args[0], ListV) \
+                and all(isinstance(x, Const) and isinstance(x.v, type(base.v)) for x in args[0].items):
             return [(cfg, Const(base.v.join(x.v for x in args[0].items)))]
         if isinstance(base, Const) and isinstance(base.v, _DATA_TYPES) and meth in _DATA_METHODS and all(isinstance(a, Const) for a in args) \
                 and all(isinstance(v, Const) for v in kwargs.values()):
